@@ -26,7 +26,7 @@ LEVEL = 'exploration'
 TITLE = 'All output routes give the same document for the same symbol and options'
 RULE = ('symbols {M2, 1-L, 7-H, 3-symbol sequence} x 13 kinds x all subsets of size <= k of the kind\'s option menu (API keyword <-> CLI flag '
         'pairs); routes: path (lower/UPPER/MiXed extension), stream+kind (any case), stream with .name, svg/png data URI, svg_inline, '
-        'gunzipped .svgz, segno.cli.main(argv) writing a file, CLI without -o vs QRCode.terminal, sequence file names; oracle = byte '
+        'gunzipped .svgz, segno.cli.main(argv) writing a file (extension in three letter cases), CLI without -o vs QRCode.terminal, sequence file names; oracle = byte '
         'equality after masking the EPS/PDF/TeX creation timestamps. non-trivial = all routes produced a document and were compared')
 BOUNDS = {'quick': 'option subsets of size <= 2', 'thorough': 'option subsets of size <= 3; CLI also as a subprocess for one vector per kind'}
 ASSUMPTIONS = ['svg_data_uri rewrites attribute quotes before percent-encoding; both sides pass through the same quote normaliser',
@@ -188,8 +188,8 @@ def routes(sym, kind, combo, acc, tmp):
     if kind != 'svgz':
         attempt('stream-name', by_named_stream)
 
-    def by_cli():
-        p = os.path.join(tmp, 'cli.' + kind)
+    def by_cli(ext=None):
+        p = os.path.join(tmp, 'cli.' + (ext or kind))
         content, argv, _ = SYMBOLS[sym]
         err = io.StringIO()
         with contextlib.redirect_stderr(err):
@@ -200,12 +200,14 @@ def routes(sym, kind, combo, acc, tmp):
         os.unlink(p)
         return gzip.decompress(b) if kind == 'svgz' else b
 
-    def by_cli_guard():
+    def by_cli_guard(ext=None):
         try:
-            return by_cli()
+            return by_cli(ext)
         except SystemExit as e:
             raise ValueError('exit %r' % e.code)
     attempt('cli', by_cli_guard)
+    attempt('cli-upper', lambda: by_cli_guard(kind.upper()))
+    attempt('cli-mixed', lambda: by_cli_guard(kind[:-1] + kind[-1].upper()))
     if kind == 'png':
         attempt('png_data_uri', lambda: base64.b64decode(qr.png_data_uri(**kw).split('base64,', 1)[1], validate=True))
     ref_name = 'path-lower'
